@@ -1,5 +1,6 @@
 import Lemmas.Conv128AsFloatUlp2
 import Lemmas.Conv128RatValue
+import Lemmas.Conv128Scan
 /-! # C02 — 128-bit integers convert and print losslessly and saturate when out of range
 
 Property theorems only.  The executable model is `Model/Conv128.lean` (namespace `Conv`) over the binary64 model
@@ -132,6 +133,82 @@ theorem fromString_rejects_charclass (s : List Char) :
     unfold parseToBigInt at h
     rw [h1] at h
     exact bigIntSetString_sound s z h
+
+/-! ## fmt.Scanner: text printed with a base verb reads back with the same verb
+
+`U128.scan tok verb` / `I128.scan tok verb` = `fromString (scanText tok verb)` is what the driver runs against
+`Sscanf` / `Fscanf` (area `scan`).  A rendering is `sign ++ zero padding ++ digits of |value| in the base`
+(`baseDigits b n`, lower case; `natDigits` for base 10), with the sign `SignFor`: `-` for a negative value, nothing or
+`+` otherwise; `zeros k` is any amount of zero padding (flag `0`, or a precision). -/
+
+/-- `scan_reads_back`, decimal: `%d` text with any sign form and zero padding reads back with `%d` (both types) -/
+theorem scan_reads_back_dec (u : U128) (i : I128) (k : Nat) (sgu sgi : List Char)
+    (hu : SignFor (u.toNat : Int) sgu) (hi : SignFor i.toInt sgi) :
+    U128.scan (sgu ++ (zeros k ++ natDigits u.toNat)) 'd' = some u ∧
+    I128.scan (sgi ++ (zeros k ++ natDigits i.toInt.natAbs)) 'd' = some i := by
+  constructor
+  · apply scan_of_parse_u
+    have := scan_parse_dec sgu (signFor_isSign hu) k u.toNat
+    rw [this]; congr 1; exact signFor_value hu
+  · apply scan_of_parse_i
+    rw [scan_parse_dec sgi (signFor_isSign hi) k i.toInt.natAbs]; congr 1; exact signFor_value hi
+
+/-- `scan_reads_back`, binary: `%b` text reads back with `%b` -/
+theorem scan_reads_back_bin (u : U128) (i : I128) (k : Nat) (sgu sgi : List Char)
+    (hu : SignFor (u.toNat : Int) sgu) (hi : SignFor i.toInt sgi) :
+    U128.scan (sgu ++ (zeros k ++ baseDigits 2 u.toNat)) 'b' = some u ∧
+    I128.scan (sgi ++ (zeros k ++ baseDigits 2 i.toInt.natAbs)) 'b' = some i := by
+  constructor
+  · apply scan_of_parse_u
+    have := scan_parse_bin sgu (signFor_isSign hu) k u.toNat
+    rw [this]; congr 1; exact signFor_value hu
+  · apply scan_of_parse_i
+    rw [scan_parse_bin sgi (signFor_isSign hi) k i.toInt.natAbs]; congr 1; exact signFor_value hi
+
+/-- `scan_reads_back`, octal: `%o` text (no prefix) reads back with `%o` and with `%O` -/
+theorem scan_reads_back_oct (verb : Char) (hv : verb = 'o' ∨ verb = 'O') (u : U128) (i : I128) (k : Nat)
+    (sgu sgi : List Char) (hu : SignFor (u.toNat : Int) sgu) (hi : SignFor i.toInt sgi) :
+    U128.scan (sgu ++ (zeros k ++ baseDigits 8 u.toNat)) verb = some u ∧
+    I128.scan (sgi ++ (zeros k ++ baseDigits 8 i.toInt.natAbs)) verb = some i := by
+  constructor
+  · apply scan_of_parse_u
+    have := scan_parse_oct verb hv sgu (signFor_isSign hu) k u.toNat
+    rw [this]; congr 1; exact signFor_value hu
+  · apply scan_of_parse_i
+    rw [scan_parse_oct verb hv sgi (signFor_isSign hi) k i.toInt.natAbs]; congr 1; exact signFor_value hi
+
+/-- full statement for hexadecimal: every `%x` rendering reads back with `%x` / `%X`.  Proved below for digit strings
+    without the digit `e`; a text containing `e` takes the `big.Rat` branch of `parseToBigInt` (hexadecimal mantissa
+    without exponent), which is compared with the real code on every run (area `scan`, oracle `glue`) but whose
+    read-back is not derived here.  Upper-case renderings (`%X`) are likewise covered by the run only. -/
+def scan_reads_back_hex_Statement : Prop :=
+  ∀ (verb : Char), verb = 'x' ∨ verb = 'X' → ∀ (u : U128) (k : Nat) (sg : List Char), SignFor (u.toNat : Int) sg →
+    U128.scan (sg ++ (zeros k ++ baseDigits 16 u.toNat)) verb = some u
+
+/-- `scan_reads_back`, hexadecimal, proved part: any sign form and zero padding — including the single padding zero in
+    front of a leading digit `b` (`%03x` of 177 = `0b1`), which is not taken for a binary prefix — for values whose
+    hexadecimal digits do not include `e` -/
+theorem scan_reads_back_hex_partial (verb : Char) (hv : verb = 'x' ∨ verb = 'X') (u : U128) (i : I128) (k : Nat)
+    (sgu sgi : List Char) (hu : SignFor (u.toNat : Int) sgu) (hi : SignFor i.toInt sgi)
+    (heu : hasExpChar (baseDigits 16 u.toNat) = false) (hei : hasExpChar (baseDigits 16 i.toInt.natAbs) = false) :
+    U128.scan (sgu ++ (zeros k ++ baseDigits 16 u.toNat)) verb = some u ∧
+    I128.scan (sgi ++ (zeros k ++ baseDigits 16 i.toInt.natAbs)) verb = some i := by
+  constructor
+  · apply scan_of_parse_u
+    have := scan_parse_hex verb hv sgu (signFor_isSign hu) k u.toNat heu
+    rw [this]; congr 1; exact signFor_value hu
+  · apply scan_of_parse_i
+    rw [scan_parse_hex verb hv sgi (signFor_isSign hi) k i.toInt.natAbs hei]; congr 1; exact signFor_value hi
+
+/-- every verb other than `b o O d x X` leaves the token alone: `Scan` is `FromString` of the token -/
+theorem scan_other_verbs (verb : Char) (h : verbPrefix verb = none) (t : List Char) :
+    U128.scan t verb = U128.fromString t ∧ I128.scan t verb = I128.fromString t := by
+  unfold U128.scan I128.scan scanText
+  rw [h]; exact ⟨rfl, rfl⟩
+
+/-- non-vacuity: `0b1` under `%x` is 177, `000123` under `%d` is 123, `10` under `%x` is 16 -/
+example : U128.scan ['0', 'b', '1'] 'x' = some ⟨0#64, 177#64⟩ ∧ U128.scan ['0', '0', '0', '1', '2', '3'] 'd' = some ⟨0#64, 123#64⟩ ∧
+    U128.scan ['1', '0'] 'x' = some ⟨0#64, 16#64⟩ := by decide
 
 /-! ## big.Int -/
 
